@@ -3,6 +3,7 @@ import CircusProofs.Core.ArbInv
 import CircusProofs.Core.Calm
 import CircusProofs.Props.C03
 import CircusProofs.Props.C06
+import CircusProofs.Core.OptionsCmd
 /-!
 # C05 — the daemon never blocks: every request completes in bounded time
 
@@ -229,6 +230,11 @@ theorem RO.statsAll : RO statsAll := by unfold Circus.Core.statsAll; ro
 @[aesop safe apply (rule_sets := [ReadOnly])]
 theorem RO.execStats (props : JVal) : RO (execStats props) := by unfold Circus.Core.execStats; ro
 
+@[aesop safe apply (rule_sets := [ReadOnly])]
+theorem RO.execOptions (props : JVal) : RO (execOptions props) := by unfold Circus.Core.execOptions; ro
+@[aesop safe apply (rule_sets := [ReadOnly])]
+theorem RO.execGet (props : JVal) : RO (execGet props) := by unfold Circus.Core.execGet; ro
+
 theorem RO.execReadOnly (cmd : String) (props : JVal) : RO (execReadOnly cmd props) := by
   unfold Circus.Core.execReadOnly
   split
@@ -244,6 +250,11 @@ theorem RO.execReadOnly (cmd : String) (props : JVal) : RO (execReadOnly cmd pro
   · exact ⟨fun s => Ticks.refl s, fun _ _ _ => rfl⟩
   · ro
   · exact RO.execStats props
+  · exact RO.execOptions props
+  · exact RO.execGet props
+  · ro
+  · ro
+  · ro
   · ro
 
 /-- never a future: the command is answered from the value it returns -/
@@ -277,6 +288,16 @@ theorem NoFut.statsAll : NoFut statsAll := by unfold Circus.Core.statsAll; ro
 theorem NoFut.execStats (props : JVal) : NoFut (execStats props) := by
   unfold Circus.Core.execStats
   ro
+
+theorem NoFut.getBody (w : Watcher) (keys : JVal) : NoFut (pure (getBody w keys)) :=
+  fun _ tid x => getBody_ne_future w keys tid x
+theorem NoFut.globalOptionsBody (props : JVal) : NoFut (pure (globalOptionsBody props)) :=
+  fun _ tid x => globalOptionsBody_ne_future props tid x
+attribute [aesop safe apply (rule_sets := [ReadOnly])] NoFut.getBody NoFut.globalOptionsBody
+@[aesop safe apply (rule_sets := [ReadOnly])]
+theorem NoFut.execOptions (props : JVal) : NoFut (execOptions props) := by unfold Circus.Core.execOptions; ro
+@[aesop safe apply (rule_sets := [ReadOnly])]
+theorem NoFut.execGet (props : JVal) : NoFut (execGet props) := by unfold Circus.Core.execGet; ro
 
 theorem NoFut.execReadOnly (cmd : String) (props : JVal) : NoFut (execReadOnly cmd props) := by
   unfold Circus.Core.execReadOnly
@@ -387,6 +408,113 @@ theorem C05_readonly_replies_in_same_step (cid : String) (j : JVal) (name : Stri
     | statusPayload st => exact ⟨_, _, _, n, by simp only; rw [sendReply_state cid _ _ _ _ _ ho1 hb1]; rfl⟩
     | unmodelled => exact ⟨_, _, _, n, by simp only; rw [sendReply_state cid _ _ _ _ _ ho1 hb1]; rfl⟩
     | future tid xform => exact absurd rfl (hNF tid xform)
+
+/-! ### 2b. `options` and `get`: what they answer, whatever is in flight -/
+
+/-- **`options` / `get` do not care who holds the exclusive slot**: replacing the slot holder and the restart flag by
+    any other values changes neither the answer nor anything else — the state after the command is the state before
+    it (not even a kernel call is made) — and the answer is never a future: it is computed in the call itself. -/
+theorem C05_options_get_whatever_the_slot (cmd : String) (hc : cmd = "options" ∨ cmd = "get") (props : JVal) (s : State)
+    (v : Option String) (r : Bool) :
+    validateExecute cmd props (slotTo v r s) = ((validateExecute cmd props s).1, slotTo v r s) ∧
+    (validateExecute cmd props s).2 = s ∧
+    (∀ tid x, (validateExecute cmd props s).1 ≠ .ok (.future tid x)) := by
+  rcases hc with rfl | rfl
+  · refine ⟨?_, ?_, NoFut.validateExecute "options" props (by decide) s⟩
+    · rw [validateExecute_options_eq, validateExecute_options_eq,
+        execOptions_fst_congr props s (slotTo v r s) rfl rfl]
+    · rw [validateExecute_options_eq]
+  · refine ⟨?_, ?_, NoFut.validateExecute "get" props (by decide) s⟩
+    · rw [validateExecute_get_eq, validateExecute_get_eq, execGet_fst_congr props s (slotTo v r s) rfl rfl]
+    · rw [validateExecute_get_eq]
+
+/-- **an `options` request is answered inside `handle_message`, with the options of the named watcher, whatever is in
+    flight**: for every daemon state `s` — slot free or taken by any operation, arbiter restarting or stopping,
+    coroutines suspended — an `options` request (command name in any letter case) for a registered watcher (name in any
+    letter case), sent as a call on an open control socket to a daemon that is not hung, has exactly this effect: one
+    `ok` reply carrying the request id and the body computed from that watcher's record is appended to the log, and the
+    per-request scratch list `doneVals` is cleared.  Nothing else changes; no kernel call is made. -/
+theorem C05_options_answered_at_once (cid : String) (j : JVal) (name n : String) (u : Nat) (s : State)
+    (hcmd : j.get? "command" = some (.str name)) (hname : pyLower name = "options")
+    (hn : ((j.get? "properties").getD (.obj [])).get? "name" = some (.str n))
+    (hu : s.a.names.lookup (pyLower n) = some u)
+    (hcast : j.get? "msg_type" ≠ some (.str "cast"))
+    (ho : s.a.ctlClosed = false) (hb : s.blocked = false) :
+    (handleMessage (some cid) (some j) s).2 =
+      { s with doneVals := [],
+               log := s.log ++ [Obs.rep cid ((j.get? "id").getD .null) "ok" "-" (optionsBody (getW u s).1)] } := by
+  have hobj : j.isObj = true := isObj_of_get_some hcmd
+  have hprops : ((j.get? "properties").getD (.obj [])).isObj = true := isObj_of_get_some hn
+  have hve : validateExecute (pyLower name) ((j.get? "properties").getD (.obj [])) (clearDone s).2 =
+      (.ok (.value (optionsBody (getW u s).1)), (clearDone s).2) := by
+    rw [hname, validateExecute_options _ _ (has_of_get_some hn)]
+    exact execOptions_known _ _ n u hn hu
+  have ho1 : (clearDone s).2.a.ctlClosed = false := ho
+  have hb1 : (clearDone s).2.blocked = false := hb
+  unfold handleMessage
+  simp only
+  erw [if_neg (by simp [hobj])]
+  simp only [hcmd]
+  erw [if_neg (by rw [hname]; decide)]
+  erw [if_neg (by simp [hprops])]
+  simp only [bind]
+  rw [hve]
+  simp only      -- the `msg_type` match is decided by `hcast` (side condition of its equation)
+  rw [sendReply_state cid _ _ _ _ _ ho1 hb1]
+  rfl
+
+/-- the same for `get`: the answer is `getBody` of the watcher's record and the keys asked for — the named options,
+    or the error of a key that is no option name (errno 3) / of keys that cannot be iterated (errno 5) — written in
+    the call itself, whatever is in flight -/
+theorem C05_get_answered_at_once (cid : String) (j : JVal) (name n : String) (u : Nat) (keys : JVal) (s : State)
+    (hcmd : j.get? "command" = some (.str name)) (hname : pyLower name = "get")
+    (hn : ((j.get? "properties").getD (.obj [])).get? "name" = some (.str n))
+    (hk : ((j.get? "properties").getD (.obj [])).get? "keys" = some keys)
+    (hu : s.a.names.lookup (pyLower n) = some u)
+    (hcast : j.get? "msg_type" ≠ some (.str "cast"))
+    (ho : s.a.ctlClosed = false) (hb : s.blocked = false) :
+    ∃ st errno body,
+      (handleMessage (some cid) (some j) s).2 =
+        { s with doneVals := [], log := s.log ++ [Obs.rep cid ((j.get? "id").getD .null) st errno body] } ∧
+      (∀ b, getBody (getW u s).1 keys = .ok (.value b) → st = "ok" ∧ errno = "-" ∧ body = b) ∧
+      (∀ e, getBody (getW u s).1 keys = .error e → st = "error" ∧ errno = errnoOf e ∧ body = "-") := by
+  have hobj : j.isObj = true := isObj_of_get_some hcmd
+  have hprops : ((j.get? "properties").getD (.obj [])).isObj = true := isObj_of_get_some hn
+  have hve : validateExecute (pyLower name) ((j.get? "properties").getD (.obj [])) (clearDone s).2 =
+      (getBody (getW u s).1 keys, (clearDone s).2) := by
+    rw [hname, validateExecute_get _ _ (has_of_get_some hn) (has_of_get_some hk)]
+    have h := execGet_known ((j.get? "properties").getD (.obj [])) (clearDone s).2 n u hn hu
+    rw [hk] at h
+    exact h
+  have ho1 : (clearDone s).2.a.ctlClosed = false := ho
+  have hb1 : (clearDone s).2.blocked = false := hb
+  have hnf := getBody_ne_future (getW u s).1 keys
+  unfold handleMessage
+  simp only
+  erw [if_neg (by simp [hobj])]
+  simp only [hcmd]
+  erw [if_neg (by rw [hname]; decide)]
+  erw [if_neg (by simp [hprops])]
+  simp only [bind]
+  rw [hve]
+  simp only      -- the `msg_type` match is decided by `hcast` (side condition of its equation)
+  generalize getBody (getW u s).1 keys = gb at hnf ⊢
+  cases gb with
+  | error e =>
+    refine ⟨"error", errnoOf e, "-", ?_, (fun b h => by cases h), (fun e' h => by cases h; exact ⟨rfl, rfl, rfl⟩)⟩
+    simp only; rw [sendReply_state cid _ _ _ _ _ ho1 hb1]; rfl
+  | ok res =>
+    cases res with
+    | value b =>
+      refine ⟨"ok", "-", b, ?_, (fun b' h => by cases h; exact ⟨rfl, rfl, rfl⟩), (fun e h => by cases h)⟩
+      simp only; rw [sendReply_state cid _ _ _ _ _ ho1 hb1]; rfl
+    | statusPayload st =>
+      refine ⟨st, "-", "-", ?_, (fun b h => by cases h), (fun e h => by cases h)⟩
+      simp only; rw [sendReply_state cid _ _ _ _ _ ho1 hb1]; rfl
+    | unmodelled =>
+      refine ⟨"*", "*", "*", ?_, (fun b h => by cases h), (fun e h => by cases h)⟩
+      simp only; rw [sendReply_state cid _ _ _ _ _ ho1 hb1]; rfl
+    | future tid x => exact absurd rfl (hnf tid x)
 
 /-! ### 3. non-waiting state-changing requests are answered before the operation finishes -/
 
@@ -817,6 +945,29 @@ example : (handleMessage (some "c") (some (c05Req "numprocesses" [])) c05S).2.lo
     ["o rep c i9 ok - numprocesses=2"] := by decide +kernel
 example : (handleMessage (some "c") (some (c05Req "stop" [("name", .str "w")])) c05S).2.log.map showObs =
     ["o rep c i9 error 5 -"] := by decide +kernel
+-- `options` / `get` while the `watcher_stop` holds the slot: the hypotheses of `C05_options_answered_at_once` /
+-- `C05_get_answered_at_once` hold for these frames, and the reply is the one the theorems name
+example : (handleMessage (some "c") (some (c05Req "options" [("name", .str "w")])) c05S).2 =
+    { c05S with doneVals := [], log := c05S.log ++ [Obs.rep "c" (.int 9) "ok" "-" (optionsBody (getW 1 c05S).1)] } :=
+  C05_options_answered_at_once "c" _ "options" "w" 1 c05S rfl (by decide +kernel) rfl (by decide +kernel)
+    (by intro h; cases h) rfl rfl
+example : (handleMessage (some "c") (some (c05Req "options" [("name", .str "w")])) c05S).2.log.map showObs =
+    ["o rep c i9 ok - options=graceful_timeout:250;max_age:0;max_retry:5;numprocesses:2;on_demand:false;priority:0;respawn:true;send_hup:false;singleton:false;stop_children:false;stop_signal:15;warmup_delay:0"] := by
+  decide +kernel
+example : (handleMessage (some "c") (some (c05Req "get" [("name", .str "w"), ("keys", .arr [.str "graceful_timeout", .str "env"])])) c05S).2.log.map showObs =
+      ["o rep c i9 ok - options=graceful_timeout:250"] ∧
+    (handleMessage (some "c") (some (c05Req "get" [("name", .str "w"), ("keys", .arr [.str "nosuch"])])) c05S).2.log.map showObs =
+      ["o rep c i9 error 3 -"] ∧
+    (handleMessage (some "c") (some (c05Req "get" [("name", .str "w"), ("keys", .int 3)])) c05S).2.log.map showObs =
+      ["o rep c i9 error 5 -"] := by decide +kernel
+example : ∃ st errno body, (handleMessage (some "c") (some (c05Req "get" [("name", .str "w"), ("keys", .str "x")])) c05S).2 =
+    { c05S with doneVals := [], log := c05S.log ++ [Obs.rep "c" (.int 9) st errno body] } := by
+  obtain ⟨st, errno, body, h, _⟩ := C05_get_answered_at_once "c" (c05Req "get" [("name", .str "w"), ("keys", .str "x")])
+    "get" "w" 1 (.str "x") c05S rfl (by decide +kernel) rfl rfl (by decide +kernel) (by intro h; cases h) rfl rfl
+  exact ⟨st, errno, body, h⟩
+example : validateExecute "options" (.obj [("name", .str "w")]) c05S =
+    ((validateExecute "options" (.obj [("name", .str "w")]) c05Free).1, c05S) :=
+  (C05_options_get_whatever_the_slot "options" (.inl rfl) (.obj [("name", .str "w")]) c05Free (some "watcher_stop") false).1
 -- slot free: a non-waiting `stop` of a stubborn worker is answered `ok` while the operation is still
 -- running (future 2 pending, one 100 ms timer, watcher `stopping`), without any blocking sleep
 example : (match (validateExecute "stop" (.obj [("name", .str "w")]) (clearDone c05Free).2).1 with
